@@ -31,6 +31,7 @@ class Run:
         self.findings = core.load_findings()
         self.assumptions = []
         self.notes = {}
+        self.selftested = {}    # trace spec -> {"corrupted": n, "rejected": n}
         sfx = "" if os.path.realpath(core.REPO) == "/repo" else "-" + os.path.basename(os.path.realpath(core.REPO))
         self.work = core.WORK / ("%s-%s%s" % (prop, tier, sfx))
         self.work.mkdir(parents=True, exist_ok=True)
@@ -92,6 +93,8 @@ class Run:
         bad_eps = {}
         for (e, s, op, why, extra) in v["mismatches"]:
             bad_eps.setdefault(e, (s, op, why, extra))
+        if trace_spec not in self.selftested and not bad_eps:
+            self._binding_selftest(trace_spec, tp, env, cfg)
         # fetch the failing events
         evs = {}
         if bad_eps:
@@ -140,6 +143,38 @@ class Run:
         except OSError:
             pass
 
+    def _binding_selftest(self, trace_spec, tp, env, cfg, want=40):
+        """Binding / vacuity control (DESIGN 7): in a copy of an accepted trace the outcome of one call per
+        episode (up to `want` episodes) is replaced by "abort" -- admissible nowhere -- and TLC must reject
+        exactly those episodes. A trace specification that does not look at the events fails here (tool error)."""
+        lines = open(tp).read().splitlines()
+        out, cur, changed, pending = [], None, set(), None
+        # choose, per episode, the last event that is not the BEGIN line
+        last_of = {}
+        for k, ln in enumerate(lines):
+            if '"op":"BEGIN"' in ln:
+                continue
+            try:
+                e = json.loads(ln)["ep"]
+            except Exception:
+                continue
+            last_of[e] = k
+        picks = dict(list(sorted(last_of.items()))[:want])
+        for e, k in picks.items():
+            d = json.loads(lines[k])
+            d["out"] = "abort"
+            lines[k] = json.dumps(d, separators=(",", ":"))
+        cp = Path(str(tp) + ".selftest")
+        cp.write_text("\n".join(lines) + "\n")
+        v = core.validate_trace(trace_spec, cp, shards=2, env=env, cfg=cfg)
+        rejected = {m[0] for m in v["mismatches"]}
+        cp.unlink(missing_ok=True)
+        self.selftested[trace_spec] = {"corrupted": len(picks), "rejected": len(rejected & set(picks))}
+        if set(picks) - rejected:
+            raise ToolError("binding self-test: %s accepted a trace in which call outcomes were replaced by abort "
+                            "(episodes %s)" % (trace_spec, sorted(set(picks) - rejected)[:5]))
+        log("[selftest] %s: %d corrupted episodes, all rejected" % (trace_spec, len(picks)))
+
     # ------------------------------------------------------------- wrap-up
     def finish(self, level_assumptions, rule, exhaustive=False):
         wall = time.time() - self.t0
@@ -175,6 +210,7 @@ class Run:
             "batches": self.batches,
             "known_findings_hit": self.known,
             "notes": self.notes,
+            "binding_selftest": self.selftested,
         }
         core.write_evidence(self.prop, self.tier, self.seed, cov, wall, nviol, level_assumptions)
         for ln in lines:
